@@ -398,6 +398,8 @@ def c18(chk):
     spec_stage(chk, "long_sim", "VersionList.tla", dict(N=400 if quick else 3000, MaxSteps=300 if quick else 2500, Mode="machine"), emit="EmitFinal",
                simulate=8 if quick else 40, depth=300 if quick else 2500, **long_)
     c18_collect(chk)
+    # for lists of any length and any numbers: collecting up to a horizon leaves lookups at or after it unchanged (TLAPS)
+    tlaps_proof(chk, "proofs/CollectProof.tla", guard=("x < y /\\ y <= h}", "x < y /\\ y <= h + 1}"))
     chk.assumptions += ["the collector's use of IterateBeforeSeq (yield, then PopFront) is driven as usecase/core/delete_old.go drives it",
                         "at the level of the use case the collected versions are counted by the content files left on disk once the cleaner has drained"]
 
